@@ -345,6 +345,9 @@ func (g *heapGen) args(h *heapRun, op string, recv int, o *obj) *Step {
 		a["map"] = m
 	case "RenameRegexp":
 		nm := g.existingName(o)
+		if len(nm) == 0 {
+			return nil
+		}
 		k := g.rng.Intn(len(nm))
 		a["lit"] = toIface(nm[k : k+1])
 		a["repl"] = toIface(s2i([]string{"", "Q", "qq"}[g.rng.Intn(3)]))
@@ -502,13 +505,13 @@ func (g *heapGen) args(h *heapRun, op string, recv int, o *obj) *Step {
 		a["plen"] = f64(pl)
 		a["ranges"] = rs
 	case "RemoveGapSites":
-		if !needAl() {
+		if !needAl() || n == 0 || L < 0 { // cleaning an empty alignment is outside every property's quantifier
 			return nil
 		}
 		p, q := g.cutoff()
 		a["p"], a["q"], a["ends"] = f64(p), f64(q), g.rng.Intn(2) == 0
 	case "RemoveCharacterSites":
-		if !needAl() {
+		if !needAl() || n == 0 || L < 0 { // cleaning an empty alignment is outside every property's quantifier
 			return nil
 		}
 		p, q := g.cutoff()
@@ -520,19 +523,19 @@ func (g *heapGen) args(h *heapRun, op string, recv int, o *obj) *Step {
 		a["p"], a["q"], a["ends"] = f64(p), f64(q), g.rng.Intn(2) == 0
 		a["icase"], a["igaps"], a["ins"], a["rev"] = g.rng.Intn(2) == 0, g.rng.Intn(2) == 0, g.rng.Intn(2) == 0, g.rng.Intn(3) == 0
 	case "RemoveMajorityCharacterSites":
-		if !needAl() {
+		if !needAl() || n == 0 || L < 0 { // cleaning an empty alignment is outside every property's quantifier
 			return nil
 		}
 		p, q := g.cutoff()
 		a["p"], a["q"], a["ends"], a["igaps"], a["ins"] = f64(p), f64(q), g.rng.Intn(2) == 0, g.rng.Intn(2) == 0, g.rng.Intn(2) == 0
 	case "RemoveGapSeqs":
-		if !needAl() {
+		if !needAl() || n == 0 || L < 0 { // cleaning an empty alignment is outside every property's quantifier
 			return nil
 		}
 		p, q := g.cutoff()
 		a["p"], a["q"], a["ins"] = f64(p), f64(q), g.rng.Intn(2) == 0
 	case "RemoveCharacterSeqs":
-		if !needAl() {
+		if !needAl() || n == 0 || L < 0 { // cleaning an empty alignment is outside every property's quantifier
 			return nil
 		}
 		p, q := g.cutoff()
